@@ -463,6 +463,8 @@ def replay(rep, path, prop):
         run = k8lib.run_k8(exe, out, i, sc, sched)
         ps = k8lib.check_liveness(run, sc)
         if not ps and prop == 'C08': ps = k8lib.check_c08_run(run, sc, {})
+        if not ps and prop == 'C02': ps = k8lib.check_group_sync(run, sc, {}) + k8lib.check_group_model(run, vlib.ensure_model(), {})
+        if not ps and prop == 'C20': ps = k8lib.check_backups(run, sc, {})
         return ps
     with ThreadPoolExecutor(vlib.NCPU) as ex:
         for ps in ex.map(one, range(n)):
